@@ -89,7 +89,13 @@ func (e *hEnv) content(tag string) []byte {
 // file draws one of the three on-disk representations of a regular file.
 func (e *hEnv) file(tag string) *hNode {
 	c := e.content(tag)
-	switch e.r.Intn(3) {
+	switch e.r.Intn(4) {
+	case 3:
+		// the link is an identity CID: the file's bytes travel inside the link, no block is stored
+		if len(c) > 60 {
+			c = c[:60]
+		}
+		return &hNode{Kind: "idraw", Content: c}
 	case 0:
 		return &hNode{Kind: "raw", Content: c}
 	case 1:
@@ -122,6 +128,8 @@ func up(depth int) string { return strings.Repeat("../", depth+1) }
 func (n *hNode) encode(b *dagB) []byte {
 	var c []byte
 	switch n.Kind {
+	case "idraw":
+		c = refcar.MakeCidV1(0x55, 0x00, n.Content)
 	case "raw":
 		c = b.putRaw(n.Content)
 	case "file":
